@@ -136,13 +136,14 @@ xresp0_pipe_init(void *arg, nni_pipe *npipe, void *s)
 	nni_aio_init(&p->aio_getq, xresp0_getq_cb, p);
 	nni_aio_init(&p->aio_send, xresp0_send_cb, p);
 
+	// (set these first: close/stop/fini run even if we fail below)
+	p->npipe = npipe;
+	p->psock = s;
+
 	if ((rv = nni_msgq_init(&p->sendq, 2)) != 0) {
 		// (the core runs our close, stop and fini for a failed init)
 		return (rv);
 	}
-
-	p->npipe = npipe;
-	p->psock = s;
 	return (0);
 }
 
